@@ -2,8 +2,8 @@ import NmlVerif.Model.Section
 import NmlVerif.DrvCommon
 open Lean NmlVerif.Section Drv
 
-/-! line protocol for C16: one cell + call description per line -> the model's outcome.
-    rationals travel as `[num, den]`. -/
+/-! line protocol for C16: one cell object + a history of operations per line -> the model's state after every
+    operation (segments, groups, cached adjacency list).  rationals travel as `[num, den]`. -/
 
 def ratOf (j : Json) : Rat :=
   match j with
@@ -41,11 +41,11 @@ def segJ (s : Seg) : Json :=
     ("parent", optJ (fun (p : Nat × Rat) => Json.arr #[Json.num (JsonNumber.fromNat p.1), ratJ p.2]) s.parent),
     ("prox", optJ ptJ s.prox), ("dist", ptJ s.dist)]
 
-/-- `opaque`: with `optimise` on, what happens to a group with includes is not modelled (C14) -/
-def groupJ (optimise : Bool) (g : Group) : Json :=
+/-- `opaque`: what `optimise_segment_group` did to a group with includes is not modelled (C14) -/
+def groupJ (isOpaque : Bool) (g : Group) : Json :=
   Json.mkObj [("id", Json.str g.id), ("nlx", optJ Json.str g.nlx), ("members", natsJ g.members),
     ("includes", Json.arr (g.includes.map Json.str).toArray),
-    ("opaque", Json.bool (optimise && !g.includes.isEmpty))]
+    ("opaque", Json.bool isOpaque)]
 
 def errJ : Err → String
   | .recursion => "RecursionError"
@@ -54,29 +54,58 @@ def errJ : Err → String
   | .noGroup => "ValueError"
   | .fuel => "Diverges"
 
+def adjJ (a : Adj) : Json :=
+  Json.arr (a.map (fun (e : Nat × List Nat) => Json.arr #[Json.num (JsonNumber.fromNat e.1), natsJ e.2])).toArray
+
+def opOf (j : Json) : Option Op :=
+  match getStr j "op" with
+  | "sect" => some (.sect (getNat j "root") (getBool j "reorder") (getBool j "optimise"))
+  | "refresh" => some .refresh
+  | "ensure" => some .ensure
+  | "append" => some (.append (segOf (getObj j "seg")))
+  | "addGroup" => some (.addGroup (groupOf (getObj j "group")))
+  | _ => none
+
+/-- the state of the cell object after a step.  `opaque` group ids: once `optimise_segment_groups` has run over a
+    group with includes, what it did to that group's members is not modelled (C14) -/
+def stateJ (c : CellS) (opaqueIds : List String) : List (String × Json) :=
+  [("segs", Json.arr (c.segs.map segJ).toArray),
+   ("groups", Json.arr (c.groups.map (fun g => groupJ (opaqueIds.contains g.id) g)).toArray),
+   ("cache", optJ adjJ c.cache)]
+
+/-- a history on one cell object: one outcome per operation, stopping at the first exception -/
+def runHist (lim fuel : Nat) : CellS → List String → List Op → List Json
+  | _, _, [] => []
+  | c, opq, op :: ops =>
+    let hyp : Json := match op with
+      | .sect root _ _ => Json.bool (hypB c.st c.cache root lim fuel)
+      | _ => Json.null
+    let tree : Option Tree := match op with
+      | .sect root _ _ => buildTree (c.cache.getD (adjacency c.segs)) (c.segs.length + 1) root
+      | _ => none
+    match step (fun _ g => g) lim fuel c op with
+    | .error e => [Json.mkObj [("res", Json.str (errJ e)), ("hyp", hyp)]]
+    | .ok c' =>
+      let opq' := match op with
+        | .sect _ _ true => opq ++ (c'.groups.filter (fun g => !g.includes.isEmpty)).map (·.id)
+        | _ => opq
+      Json.mkObj ([("res", Json.str "ok"), ("hyp", hyp),
+        ("nest", match tree with | some t => Json.num (JsonNumber.fromNat (nest t)) | none => Json.null)] ++
+        stateJ c' opq') :: runHist lim fuel c' opq' ops
+
 def handle (j : Json) : Json :=
   let segs := (getArr j "segs").toList.map segOf
   let groups := (getArr j "groups").toList.map groupOf
-  let cell : St := ⟨segs, groups⟩
   let cache : Option Adj := match getObj j "cache" with
     | .null => none
     | c => match c.getObjVal? "prefix" with
       | .ok m => some (adjacency (segs.take ((m.getNat?.toOption).getD 0)))
       | _ => some (adjOf (getObj c "adj"))
-  let root := getNat j "root"
-  let reorder := getBool j "reorder"
-  let optimise := getBool j "optimise"
   let lim := getNat j "lim"
-  let fuel := 2 * segs.length + 4
-  let adj := match cache with | some a => a | none => adjacency segs
-  let hyp := hypB cell cache root lim fuel
-  match run (fun _ g => g) cell cache root reorder optimise lim fuel with
-  | .error e => Json.mkObj [("res", Json.str (errJ e)), ("hyp", Json.bool hyp)]
-  | .ok st =>
-    let t := buildTree adj (segs.length + 1) root
-    Json.mkObj [("res", "ok"), ("segs", Json.arr (st.segs.map segJ).toArray),
-      ("groups", Json.arr (st.groups.map (groupJ optimise)).toArray),
-      ("hyp", Json.bool hyp),
-      ("nest", match t with | some t => Json.num (JsonNumber.fromNat (nest t)) | none => Json.null)]
+  let ops := (getArr j "ops").toList.filterMap opOf
+  let appends := (ops.filter (fun o => match o with | .append _ => true | _ => false)).length
+  let fuel := 2 * (segs.length + appends) + 4
+  Json.mkObj [("steps", Json.arr (runHist lim fuel ⟨segs, groups, cache⟩ [] ops).toArray),
+    ("nops", Json.num (JsonNumber.fromNat ops.length))]
 
 def main : IO Unit := loop handle
